@@ -36,7 +36,7 @@ POSTCONDITION Accepted
 CHECK_DEADLOCK FALSE
 """
 
-UCLASS = {"expr": "expr", "meta": "expr", "multi": "expr", "args": "expr", "elts": "expr", "stmts": "stmts"}
+UCLASS = {"expr": "expr", "meta": "expr", "multi": "expr", "params": "expr", "fields": "expr", "args": "expr", "elts": "expr", "stmts": "stmts"}
 
 
 def metas_of(t, acc):
@@ -69,7 +69,12 @@ def universe_vectors(ctx, u, bounds, prop):
     for i, p in enumerate(read_ndjson(pairs)):
         m = {}
         metas_of(p["pat"], m)
-        layout = "ctx" if (u == "stmts" or max(count_dots(p["pat"]), count_dots(p["plus"])) > 1) else "minus-first"
+        nd = max(count_dots(p["pat"]), count_dots(p["plus"]))
+        if u in ("params", "fields") and nd > 1:
+            # the list sits inside a call argument, so its elisions cannot be put on context lines of their
+            # own; several '...' on '-'/'+' lines are not constrained by the statement (DESIGN section 7)
+            continue
+        layout = "ctx" if (u == "stmts" or nd > 1) else "minus-first"
         vecs.append(dict(id="%s-%d" % (u, i + 1), prop=[prop], **{"class": UCLASS[u]},
                          metas=[dict(name=k, kind=v) for k, v in sorted(m.items())],
                          pat=p["pat"], plus=p["plus"], use_subjects=True, tmpl="one", layout=layout,
